@@ -1082,6 +1082,19 @@ static int janet_channel_push(JanetChannel *channel, Janet x, int mode) {
 /* Pop from a channel - returns 1 if item was obtained, 0 otherwise. The item
  * is returned by reference. If the pop would block, will add to the read_pending
  * queue in the channel. */
+/* Entries of waits that are already over (another select clause won, the wait was cancelled or timed
+ * out) are normally skipped by the next give. On a channel that sees no gives they would pile up without
+ * bound - one per ev/select that names the channel - so drop them from the front before queueing behind them. */
+static void janet_chan_drop_stale_readers(JanetChannel *channel) {
+    JanetChannelPending p;
+    while (!janet_q_pop(&channel->read_pending, &p, sizeof(p))) {
+        if (p.sched_id == p.fiber->sched_id) {
+            janet_q_push_head(&channel->read_pending, &p, sizeof(p));
+            break;
+        }
+    }
+}
+
 static int janet_channel_pop_with_lock(JanetChannel *channel, Janet *item, int is_choice) {
     JanetChannelPending writer;
     JANET_VERIF_POINT(janet_chan_is_threaded(channel) ? 1 : 0, &channel->lock);
@@ -1099,6 +1112,7 @@ static int janet_channel_pop_with_lock(JanetChannel *channel, Janet *item, int i
             return 0;
         }
         JanetChannelPending pending;
+        if (!is_threaded) janet_chan_drop_stale_readers(channel);
         pending.thread = &janet_vm;
         pending.fiber = janet_vm.root_fiber,
         pending.sched_id = janet_vm.root_fiber->sched_id;
